@@ -1,235 +1,408 @@
 #!/usr/bin/env python3
 """Regenerates lean/TcVerif/Gen/Consts.lean from /repo's current sources (run on every check).
 
-Only constants and small tables are translated; function bodies are hand-modelled and tied
-to the code by the correspondence leg.  Theorems are stated with the property's own numbers,
-so a changed constant makes a proof obligation (or the correspondence) fail instead of
-silently re-proving a different claim.  A constant that can no longer be located is an error:
-the tie between model and code is broken."""
-import re, sys, os
+Only constants and small tables are translated; function bodies are hand-modelled and tied to the
+code by the correspondence leg.  Theorems are stated with the property's own numbers, so a CHANGED
+constant or table makes a proof obligation (or the correspondence) fail instead of silently
+re-proving a different claim.
 
+Every item is extracted on its own.  Three outcomes per item:
+  located          the expected declaration / code shape was found; its CURRENT content is emitted
+                   (if it differs from what the theorems expect, a `decide` tie theorem fails);
+  located-by-value a named constant is gone but some `const` of the same crate has the expected
+                   value (a rename or a move): the value is emitted;
+  not-located      the code was restructured beyond what the patterns recognise.  The last known
+                   content (translate/baseline.json, committed) is emitted so that the model still
+                   builds, and the item is listed in work/translator_status.json: for this run the
+                   tie of that item rests on the correspondence legs alone (the checks print a NOTE).
+A restructuring is not evidence of a behaviour change, a different content is."""
+import re, sys, os, json, glob
+
+ROOT = os.path.dirname(os.path.dirname(os.path.abspath(__file__)))
 REPO = os.environ.get("VERIF_REPO", "/repo")
-OUT = os.path.join(os.path.dirname(os.path.dirname(os.path.abspath(__file__))), "lean", "TcVerif", "Gen", "Consts.lean")
+OUT = os.path.join(ROOT, "lean", "TcVerif", "Gen", "Consts.lean")
+BASELINE = os.path.join(ROOT, "translate", "baseline.json")
+STATUS = os.path.join(ROOT, "work", "translator_status.json")
 
+class NotLocated(Exception):
+    pass
+
+_src_cache = {}
 def src(rel):
-    return open(os.path.join(REPO, rel)).read()
+    if rel not in _src_cache:
+        try:
+            _src_cache[rel] = open(os.path.join(REPO, rel)).read()
+        except OSError as e:
+            raise NotLocated(f"source file {rel} not readable ({e.__class__.__name__})")
+    return _src_cache[rel]
 
 def strip_comments(s):
-    s = re.sub(r"//[^\n]*", "", s)
-    return s
+    return re.sub(r"//[^\n]*", "", s)
+
+def code(rel):
+    return strip_comments(src(rel))
 
 def num(expr):
     """evaluate a Rust integer constant expression such as `512 * 1024 * 1024` or `10_000`"""
     e = expr.replace("_", "").strip()
     if not re.fullmatch(r"[0-9 *+\-()/]+", e):
-        raise ValueError(f"not a constant integer expression: {expr!r}")
+        raise NotLocated(f"not a constant integer expression: {expr!r}")
     return int(eval(e.replace("/", "//")))
 
 def const(text, name):
     m = re.search(r"const\s+" + name + r"\s*:\s*\w+\s*=\s*([^;]+);", text)
     if not m:
-        raise KeyError(f"constant {name} not found")
+        raise NotLocated(f"constant {name} not found")
     return m.group(1).strip()
 
 def need(text, pattern, what):
-    m = re.search(pattern, text)
+    m = re.search(pattern, text, re.S)
     if not m:
-        raise KeyError(f"pattern for {what} not found: {pattern}")
+        raise NotLocated(f"code shape for {what} not found")
     return m
 
-def main():
-    items = []  # (name, value, comment)
-    def add(name, value, comment):
-        items.append((name, int(value), comment))
+def crate_consts(crate):
+    """every `const NAME: T = <integer expression>;` of a crate's src tree -> {value: [names]}"""
+    out = {}
+    for f in glob.glob(os.path.join(REPO, crate, "src", "**", "*.rs"), recursive=True):
+        try:
+            t = strip_comments(open(f).read())
+        except OSError:
+            continue
+        for nm, ex in re.findall(r"const\s+(\w+)\s*:\s*\w+\s*=\s*([^;]+);", t):
+            try:
+                out.setdefault(num(ex), []).append(nm)
+            except NotLocated:
+                pass
+    return out
 
-    rl = strip_comments(src("throttlecrab/src/core/rate_limiter.rs"))
-    add("MAX_RETRIES", num(const(rl, "MAX_RETRIES")), "rate_limiter.rs retry limit")
+def fn_body(text, name):
+    m = re.search(r"pub fn " + name + r"\b[^{]*\{", text)
+    if not m:
+        raise NotLocated(f"fn {name} not found")
+    i = m.end(); depth = 1
+    while depth:
+        if i >= len(text):
+            raise NotLocated(f"fn {name}: unbalanced braces")
+        c = text[i]
+        depth += (c == "{") - (c == "}")
+        i += 1
+    return text[m.end():i - 1]
 
-    per = strip_comments(src("throttlecrab/src/core/store/periodic.rs"))
-    add("PERIODIC_DEFAULT_INTERVAL_SECS", num(const(per, "DEFAULT_CLEANUP_INTERVAL_SECS")), "periodic.rs")
+RECEIVERS = r"(?:req|request|result|response|resp|res|r|self|state)"
 
-    ada = strip_comments(src("throttlecrab/src/core/store/adaptive_cleanup.rs"))
-    add("ADAPTIVE_MIN_INTERVAL_SECS", num(const(ada, "MIN_CLEANUP_INTERVAL_SECS")), "adaptive_cleanup.rs")
-    add("ADAPTIVE_MAX_INTERVAL_SECS", num(const(ada, "MAX_CLEANUP_INTERVAL_SECS")), "adaptive_cleanup.rs")
-    add("ADAPTIVE_DEFAULT_INTERVAL_SECS", num(const(ada, "DEFAULT_CLEANUP_INTERVAL_SECS")), "adaptive_cleanup.rs")
-    add("ADAPTIVE_MAX_OPS", num(const(ada, "MAX_OPERATIONS_BEFORE_CLEANUP")), "adaptive_cleanup.rs")
-    thr = const(ada, "EXPIRED_RATIO_THRESHOLD")
+def file_consts(text):
+    out = {}
+    for nm, ex in re.findall(r"const\s+(\w+)\s*:\s*\w+\s*=\s*([^;]+);", text):
+        try:
+            out[nm] = num(ex)
+        except NotLocated:
+            pass
+    return out
+
+def norm_expr(e, text=""):
+    """a canonical form of a field initialiser that is insensitive to how the value is spelled, not to
+    WHICH value it is: whitespace; `i64::from(x)` = `x as i64`; a leading `&`; the receiver the field
+    is read from (`req.max_burst` = `max_burst` after destructuring); `.clone()`; an UPPER_CASE
+    constant of the same file is replaced by its value; a local bound by `let x = <expr>;` to a call
+    without arguments (`SystemTime::now()`) is replaced by that call"""
+    e = re.sub(r"\s+", " ", e).strip()
+    e = re.sub(r"\b(i64|i32|u64)::from\(([^()]+)\)", r"\2 as \1", e)
+    e = re.sub(r"^&\s*", "", e)
+    e = re.sub(r"\b" + RECEIVERS + r"\.(?=[a-z_])", "", e)
+    e = re.sub(r"\.clone\(\)", "", e)
+    if text:
+        consts = file_consts(text)
+        e = re.sub(r"\b[A-Z][A-Z0-9_]+\b", lambda m: str(consts[m.group(0)]) if m.group(0) in consts else m.group(0), e)
+        if re.fullmatch(r"[a-z_]+", e):
+            m = re.search(r"let\s+" + e + r"\s*=\s*([A-Za-z_:]+\(\))\s*;", text)
+            if m:
+                e = m.group(1)
+    return e
+
+def call_sites(text, fn_prefix="record_"):
+    """every `metrics.record_xxx(args)` call with balanced parentheses, arguments normalised"""
+    out = []
+    for m in re.finditer(r"metrics\s*\.\s*(" + fn_prefix + r"\w+)\(", text):
+        i = m.end(); depth = 1
+        while depth:
+            if i >= len(text):
+                raise NotLocated("unbalanced parentheses in a metrics call")
+            depth += (text[i] == "(") - (text[i] == ")")
+            i += 1
+        args = text[m.end():i - 1]
+        parts, d, cur = [], 0, ""
+        for ch in args:
+            if ch == "," and d == 0:
+                parts.append(cur); cur = ""
+            else:
+                d += (ch in "([{") - (ch in ")]}")
+                cur += ch
+        if cur.strip():
+            parts.append(cur)
+        parts = [re.sub(r"^MetricsTransport::", "", norm_expr(a, text)) for a in parts]
+        out.append((m.start(), f"{m.group(1)}({', '.join(parts)})"))
+    return out
+
+# ------------------------------------------------------------------------------------------------
+# items: (name, kind, doc, crate-for-value-search or None, extractor)
+#   kind "nat": extractor returns int; "strs": list[str]; "pairs": list[(str,str)];
+#   "proto": list[(type,name,number)]; "idx": list[(str,int)]
+# ------------------------------------------------------------------------------------------------
+LIB, SRV = "throttlecrab", "throttlecrab-server"
+RL = "throttlecrab/src/core/rate_limiter.rs"
+ADA = "throttlecrab/src/core/store/adaptive_cleanup.rs"
+PRO = "throttlecrab/src/core/store/probabilistic.rs"
+RATE = "throttlecrab/src/core/rate/mod.rs"
+RESP = "throttlecrab-server/src/transport/redis/resp.rs"
+RMOD = "throttlecrab-server/src/transport/redis/mod.rs"
+MET = "throttlecrab-server/src/metrics.rs"
+HTTP = "throttlecrab-server/src/transport/http.rs"
+GRPC = "throttlecrab-server/src/transport/grpc.rs"
+TYPES = "throttlecrab-server/src/types.rs"
+MAINRS = "throttlecrab-server/src/main.rs"
+STORERS = "throttlecrab-server/src/store.rs"
+PROTO = "throttlecrab-server/proto/throttlecrab.proto"
+
+def ratio_permille():
+    thr = const(code(ADA), "EXPIRED_RATIO_THRESHOLD")
     m = re.fullmatch(r"0\.(\d+)", thr)
     if not m:
-        raise ValueError("EXPIRED_RATIO_THRESHOLD is not a decimal fraction")
-    add("ADAPTIVE_RATIO_THRESHOLD_PERMILLE", int((m.group(1) + "000")[:3]), "adaptive_cleanup.rs EXPIRED_RATIO_THRESHOLD x 1000")
-    add("ADAPTIVE_EXPIRED_MIN", num(need(ada, r"self\.expired_count\s*>\s*(\d+)", "expired_count floor").group(1)), "adaptive_cleanup.rs `expired_count > 50`")
-    add("ADAPTIVE_PRODUCTIVE_DIV", num(need(ada, r"self\.last_cleanup_removed\s*>\s*self\.last_cleanup_total\s*/\s*(\d+)", "productive divisor").group(1)), "adaptive_cleanup.rs")
+        raise NotLocated("EXPIRED_RATIO_THRESHOLD is not a decimal fraction")
+    return int((m.group(1) + "000")[:3])
 
-    pro = strip_comments(src("throttlecrab/src/core/store/probabilistic.rs"))
-    add("PROB_DEFAULT_MODULO", num(const(pro, "PROBABILISTIC_CLEANUP_MODULO")), "probabilistic.rs")
-    add("PROB_MULT", num(need(pro, r"operations_count\)?\s*(?:\.wrapping_mul\(|\*)\s*([0-9_]+)", "multiplier").group(1)), "probabilistic.rs hash multiplier")
+def unit(fn):
+    def f():
+        m = need(code(RATE), r"pub fn " + fn + r"\(n: u64\) -> Self \{\s*Rate \{\s*period: Duration::from_secs\((\d+)\) / n as u32", fn)
+        return num(m.group(1))
+    return f
 
-    rate = strip_comments(src("throttlecrab/src/core/rate/mod.rs"))
-    for fn, nm in (("per_second", "UNIT_SECOND"), ("per_minute", "UNIT_MINUTE"), ("per_hour", "UNIT_HOUR"), ("per_day", "UNIT_DAY")):
-        m = need(rate, r"pub fn " + fn + r"\(n: u64\) -> Self \{\s*Rate \{\s*period: Duration::from_secs\((\d+)\) / n as u32", fn)
-        add(nm + "_SECS", num(m.group(1)), f"rate/mod.rs {fn}")
-    m = need(rate, r"period_seconds as f64 \* ([0-9_]+)\.0 / count as f64", "ns per second literal")
-    add("NS_PER_SEC", num(m.group(1)), "rate/mod.rs from_count_and_period")
+COUNTERS = ["total_requests", "http_requests", "grpc_requests", "redis_requests", "requests_allowed", "requests_denied", "requests_errors"]
+def incs(fn):
+    def f():
+        body = fn_body(code(MET), fn)
+        got = sorted(c for c in COUNTERS for _ in re.findall(r"self\." + c + r"\.fetch_add\(1,", body))
+        if not got or len(got) != len(re.findall(r"fetch_add\(", body)):
+            # increments through a helper / another receiver: the table cannot be read off this body
+            raise NotLocated(f"{fn}: not every increment is a direct `self.<counter>.fetch_add(1, ..)`")
+        return got
+    return f
 
-    resp = strip_comments(src("throttlecrab-server/src/transport/redis/resp.rs"))
-    add("RESP_MAX_BULK", num(const(resp, "MAX_BULK_STRING_SIZE")), "resp.rs")
-    add("RESP_MAX_ARRAY", num(const(resp, "MAX_ARRAY_SIZE")), "resp.rs")
-    add("RESP_MAX_DEPTH", num(const(resp, "MAX_ARRAY_DEPTH")), "resp.rs")
-    rmod = strip_comments(src("throttlecrab-server/src/transport/redis/mod.rs"))
-    add("RESP_MAX_BUFFER", num(const(rmod, "MAX_BUFFER_SIZE")), "redis/mod.rs per-connection buffer cap")
-    add("RESP_READ_CHUNK", num(need(rmod, r"vec!\[0;\s*(\d+)\]", "read chunk").group(1)), "redis/mod.rs read size")
+def proto_fields(msg):
+    def f():
+        m = need(src(PROTO), r"message " + msg + r" \{([^}]*)\}", msg)
+        return [(t, n, int(k)) for t, n, k in re.findall(r"(\w+)\s+(\w+)\s*=\s*(\d+);", re.sub(r"//[^\n]*", "", m.group(1)))]
+    return f
 
-    met = strip_comments(src("throttlecrab-server/src/metrics.rs"))
-    add("METRICS_MAX_KEY_LENGTH", num(const(met, "MAX_KEY_LENGTH")), "metrics.rs")
-    add("METRICS_MAX_DENIED_KEYS_LIMIT", num(const(met, "MAX_DENIED_KEYS_LIMIT")), "metrics.rs")
-    add("METRICS_GROWTH_FACTOR", num(need(met, r"self\.counts\.len\(\)\s*>\s*self\.max_size\s*\*\s*(\d+)", "growth factor").group(1)), "metrics.rs `len > max_size * 3`")
-    add("METRICS_DEFAULT_MAX_DENIED", num(need(met, r"max_denied_keys:\s*(\d+),", "default").group(1)), "metrics.rs MetricsBuilder::new")
+def struct_literal(rel, pattern, what):
+    def f():
+        text = code(rel)
+        m = need(text, pattern, what)
+        xs = re.findall(r"^\s*(\w+)(?::\s*([^,\n]+))?,\s*$", m.group(1), re.M)
+        if not xs:
+            raise NotLocated(f"{what}: no fields")
+        return sorted((a, norm_expr(b or a, text)) for a, b in xs)
+    return f
 
-    # metric increment table: which counters each record function bumps
-    def fn_body(text, name):
-        m = re.search(r"pub fn " + name + r"\b[^{]*\{", text)
-        if not m:
-            raise KeyError(name)
-        i = m.end(); depth = 1
-        while depth:
-            c = text[i]
-            depth += (c == "{") - (c == "}")
-            i += 1
-        return text[m.end():i - 1]
-    counters = ["total_requests", "http_requests", "grpc_requests", "redis_requests", "requests_allowed", "requests_denied", "requests_errors"]
-    def incs(body):
-        return [c for c in counters for _ in re.findall(r"self\." + c + r"\.fetch_add\(1,", body)]
-    rr = fn_body(met, "record_request")
-    re_ = fn_body(met, "record_error")
-    tbl = dict(record_request=sorted(incs(rr)), record_error=sorted(incs(re_)))
+def types_map():
+    body = need(code(TYPES), r"impl From<\(bool, RateLimitResult\)> for ThrottleResponse \{(.*?)\n\}\n", "types.rs From impl").group(1)
+    lit = need(body, r"ThrottleResponse \{(.*?)\}", "types.rs response literal").group(1)
+    xs = re.findall(r"^\s*(\w+)(?::\s*([^,\n]+))?,\s*$", lit, re.M)
+    if not xs:
+        raise NotLocated("types.rs response literal: no fields")
+    return sorted((a, norm_expr(b or a, code(TYPES))) for a, b in xs)
 
-    # protobuf field numbers
-    proto = src("throttlecrab-server/proto/throttlecrab.proto")
-    def fields(msg):
-        m = need(proto, r"message " + msg + r" \{([^}]*)\}", msg)
-        return re.findall(r"(\w+)\s+(\w+)\s*=\s*(\d+);", re.sub(r"//[^\n]*", "", m.group(1)))
-    preq, presp = fields("ThrottleRequest"), fields("ThrottleResponse")
+def resp_reply():
+    m = need(code(RMOD), r"Ok\(response\) => \{\s*RespValue::Array\(vec!\[(.*?)\]\)", "RESP reply literal")
+    xs = re.findall(r"response\.(\w+)", m.group(1))
+    if not xs:
+        raise NotLocated("RESP reply literal: no fields")
+    return xs
 
-    # ---- wire mappings (C12): which library field lands in which wire position ----------------
-    types = strip_comments(src("throttlecrab-server/src/types.rs"))
-    body = re.search(r"impl From<\(bool, RateLimitResult\)> for ThrottleResponse \{(.*?)\n\}\n", types, re.S).group(1)
-    types_map = re.findall(r"^\s*(\w+)(?::\s*([^,\n]+))?,\s*$", re.search(r"ThrottleResponse \{(.*?)\}", body, re.S).group(1), re.M)
-    types_map = [(a, (b or a).strip()) for a, b in types_map]
-    grpc = strip_comments(src("throttlecrab-server/src/transport/grpc.rs"))
-    gresp = re.search(r"let response = ThrottleResponse \{(.*?)\};", grpc, re.S)
-    if not gresp:
-        raise KeyError("grpc response literal")
-    grpc_resp = [(a, b.strip()) for a, b in re.findall(r"^\s*(\w+):\s*([^,\n]+),\s*$", gresp.group(1), re.M)]
-    greq = re.search(r"let actor_request = ActorRequest \{(.*?)\};", grpc, re.S)
-    if not greq:
-        raise KeyError("grpc request literal")
-    grpc_req = [(a, (b or a).strip()) for a, b in re.findall(r"^\s*(\w+)(?::\s*([^,\n]+))?,\s*$", greq.group(1), re.M)]
-    http = strip_comments(src("throttlecrab-server/src/transport/http.rs"))
-    hreq = re.search(r"let internal_req = InternalRequest \{(.*?)\};", http, re.S)
-    if not hreq:
-        raise KeyError("http request literal")
-    http_req = [(a, (b or a).strip()) for a, b in re.findall(r"^\s*(\w+)(?::\s*([^,\n]+))?,\s*$", hreq.group(1), re.M)]
-    rreply = re.search(r"Ok\(response\) => \{\s*RespValue::Array\(vec!\[(.*?)\]\)", rmod, re.S)
-    if not rreply:
-        raise KeyError("resp reply literal")
-    resp_reply = re.findall(r"response\.(\w+)", rreply.group(1))
-    rargs = []
+def quantity_block():
+    return need(code(RMOD), r"let quantity = if args\.len\(\) == (\d+) \{\s*match parse_integer\(&args\[(\d+)\]\)(.*?)\} else \{\s*(\d+)\s*\};", "RESP quantity block")
+
+def resp_args():
+    rmod = code(RMOD)
+    out = [("key", int(need(rmod, r"let key = match &args\[(\d+)\]", "RESP key arg").group(1)))]
     for nm in ("max_burst", "count_per_period", "period"):
-        m = need(rmod, r"let " + nm + r" = match parse_integer\(&args\[(\d+)\]\)", "RESP arg " + nm)
-        rargs.append((nm, int(m.group(1))))
-    m = need(rmod, r"let key = match &args\[(\d+)\]", "RESP key arg")
-    rargs.insert(0, ("key", int(m.group(1))))
-    m = re.search(r"let quantity = if args\.len\(\) == (\d+) \{\s*match parse_integer\(&args\[(\d+)\]\)(.*?)\} else \{\s*(\d+)\s*\};", rmod, re.S)
-    if not m:
-        raise KeyError("RESP quantity block")
-    rargs.append(("quantity", int(m.group(2))))
-    add("RESP_DEFAULT_QUANTITY", int(m.group(4)), "redis/mod.rs quantity when the 6th argument is omitted")
-    add("RESP_THROTTLE_FULL_ARITY", int(m.group(1)), "redis/mod.rs args.len() with explicit quantity")
-    m = re.search(r"args\.len\(\) < (\d+) \|\| args\.len\(\) > (\d+)", rmod) or re.search(r"!\((\d+)\.\.=(\d+)\)\.contains\(&args\.len\(\)\)", rmod)
-    if not m:
-        raise KeyError("RESP arity check")
-    add("RESP_THROTTLE_MIN_ARGS", int(m.group(1)), "redis/mod.rs arity lower bound")
-    add("RESP_THROTTLE_MAX_ARGS", int(m.group(2)), "redis/mod.rs arity upper bound")
-    m = need(http, r"quantity:\s*req\.quantity\.unwrap_or\((\d+)\)", "HTTP default quantity")
-    add("HTTP_DEFAULT_QUANTITY", int(m.group(1)), "http.rs quantity.unwrap_or")
+        out.append((nm, int(need(rmod, r"let " + nm + r" = match parse_integer\(&args\[(\d+)\]\)", "RESP arg " + nm).group(1))))
+    out.append(("quantity", int(quantity_block().group(2))))
+    return out
 
-    # ---- main.rs wiring (C09): one limiter, one handle cloned to every transport ----------------
-    mainrs = strip_comments(src("throttlecrab-server/src/main.rs"))
-    add("MAIN_CREATE_LIMITER_CALLS", len(re.findall(r"create_rate_limiter\s*\(", mainrs)), "main.rs: number of calls of store::create_rate_limiter")
-    starts = re.findall(r"transport\.start\(\s*(\w+)\s*\)", mainrs)
-    add("MAIN_TRANSPORT_STARTS", len(starts), "main.rs: number of transport.start(..) calls")
-    handles = re.findall(r"let\s+limiter_handle\s*=\s*([^;]+);", mainrs)
-    add("MAIN_HANDLES_CLONED_FROM_LIMITER", sum(1 for h in handles if h.strip() == "limiter.clone()"), "main.rs: transport handles that are `limiter.clone()`")
-    add("MAIN_METRICS_BUILDS", len(re.findall(r"Metrics::builder\(\)", mainrs)), "main.rs: number of Metrics instances built")
-    storers = strip_comments(src("throttlecrab-server/src/store.rs"))
-    add("STORE_SPAWN_CALLS", len(re.findall(r"RateLimiterActor::spawn_\w+\(", storers)), "store.rs: actor spawns (one per store kind branch)")
+def arity(i):
+    def f():
+        rmod = code(RMOD)
+        m = re.search(r"args\.len\(\) < (\d+) \|\| args\.len\(\) > (\d+)", rmod) or re.search(r"!\((\d+)\.\.=(\d+)\)\.contains\(&args\.len\(\)\)", rmod)
+        if not m:
+            raise NotLocated("RESP arity check not found")
+        return int(m.group(i))
+    return f
 
-    # ---- which metric call each transport makes in which arm (C15) -------------------------------
-    def metric_calls(text, what):
+def count(rel, pattern, at_least_one=True):
+    def f():
+        n = len(re.findall(pattern, code(rel)))
+        if n == 0 and at_least_one:
+            raise NotLocated(f"no occurrence of /{pattern}/ in {rel}")
+        return n
+    return f
+
+def handles_cloned():
+    hs = re.findall(r"let\s+limiter_handle\s*=\s*([^;]+);", code(MAINRS))
+    if not hs:
+        raise NotLocated("main.rs: no `let limiter_handle = ..`")
+    return sum(1 for h in hs if h.strip() == "limiter.clone()")
+
+def metric_calls(rel):
+    def f():
+        text = code(rel)
         m = re.search(r"match\s+(?:state|self)\.limiter\.throttle\([^)]*\)\.await\s*\{", text)
         if not m:
-            raise KeyError("limiter.throttle match in " + what)
+            raise NotLocated("`match <x>.limiter.throttle(..).await {` not found in " + rel)
         i = m.end(); depth = 1
         while depth:
+            if i >= len(text):
+                raise NotLocated("unbalanced braces in " + rel)
             ch = text[i]
             depth += (ch == "{") - (ch == "}")
             i += 1
         body = text[m.end():i - 1]
         arms = re.split(r"\n\s*Err\(", body, maxsplit=1)
         if len(arms) != 2:
-            raise KeyError("Ok/Err arms in " + what)
+            raise NotLocated("Ok/Err arms in " + rel)
         def calls(t):
-            def norm(c):
-                c = re.sub(r"\s+", " ", c.strip())
-                c = re.sub(r"\(\s+", "(", c)
-                c = re.sub(r",?\s*\)$", ")", c)
-                return c
-            return [norm(c) for c in re.findall(r"metrics\s*\.\s*(record_\w+\([^;]*?\));", t, re.S)]
-        return [("ok", c) for c in calls(arms[0])] + [("err", c) for c in calls(arms[1])]
-    http_calls = metric_calls(http, "http.rs")
-    grpc_calls = metric_calls(grpc, "grpc.rs")
-    resp_calls = [re.sub(r"\s+", " ", c.strip()) for c in re.findall(r"metrics\.(record_\w+\([^;]*?\));", rmod, re.S)]
+            return [c for _, c in call_sites(t)]
+        got = [("ok", c) for c in calls(arms[0])] + [("err", c) for c in calls(arms[1])]
+        if not got:
+            raise NotLocated("no metrics.record_* call in the limiter-result match of " + rel)
+        return sorted(got)
+    return f
 
-    def pairs(name, doc, xs):
-        # a struct literal's field order is irrelevant in Rust: sort by field; collapse whitespace in expressions
-        xs = sorted((a, re.sub(r"\s+", " ", b).strip()) for a, b in xs)
-        return [f"/-- {doc} -/", f"def {name} : List (String × String) := [" + ", ".join(f'("{a}", "{b}")' for a, b in xs) + "]"]
+def resp_metric_calls():
+    got = [c.replace('"', "'") for _, c in call_sites(code(RMOD))]
+    if not got:
+        raise NotLocated("no metrics.record_* call in redis/mod.rs")
+    return got
 
+ITEMS = [
+    ("MAX_RETRIES", "nat", "rate_limiter.rs retry limit", LIB, lambda: num(const(code(RL), "MAX_RETRIES"))),
+    ("ADAPTIVE_RATIO_THRESHOLD_PERMILLE", "nat", "adaptive_cleanup.rs EXPIRED_RATIO_THRESHOLD x 1000", None, ratio_permille),
+    ("ADAPTIVE_EXPIRED_MIN", "nat", "adaptive_cleanup.rs `expired_count > 50`", None,
+     lambda: num(need(code(ADA), r"self\.expired_count\s*>\s*(\d+)", "expired_count floor").group(1))),
+    ("ADAPTIVE_PRODUCTIVE_DIV", "nat", "adaptive_cleanup.rs", None,
+     lambda: num(need(code(ADA), r"self\.last_cleanup_removed\s*>\s*self\.last_cleanup_total\s*/\s*(\d+)", "productive divisor").group(1))),
+    ("PROB_DEFAULT_MODULO", "nat", "probabilistic.rs", LIB, lambda: num(const(code(PRO), "PROBABILISTIC_CLEANUP_MODULO"))),
+    ("PROB_MULT", "nat", "probabilistic.rs hash multiplier", LIB,
+     lambda: num(need(code(PRO), r"operations_count\)?\s*(?:\.wrapping_mul\(|\*)\s*([0-9_]+)", "multiplier").group(1))),
+    ("UNIT_SECOND_SECS", "nat", "rate/mod.rs per_second", None, unit("per_second")),
+    ("UNIT_MINUTE_SECS", "nat", "rate/mod.rs per_minute", None, unit("per_minute")),
+    ("UNIT_HOUR_SECS", "nat", "rate/mod.rs per_hour", None, unit("per_hour")),
+    ("UNIT_DAY_SECS", "nat", "rate/mod.rs per_day", None, unit("per_day")),
+    ("NS_PER_SEC", "nat", "rate/mod.rs from_count_and_period", LIB,
+     lambda: num(need(code(RATE), r"period_seconds as f64 \* ([0-9_]+)\.0 / count as f64", "ns per second literal").group(1))),
+    ("RESP_MAX_BULK", "nat", "resp.rs", SRV, lambda: num(const(code(RESP), "MAX_BULK_STRING_SIZE"))),
+    ("RESP_MAX_ARRAY", "nat", "resp.rs", SRV, lambda: num(const(code(RESP), "MAX_ARRAY_SIZE"))),
+    ("RESP_MAX_DEPTH", "nat", "resp.rs", SRV, lambda: num(const(code(RESP), "MAX_ARRAY_DEPTH"))),
+    ("RESP_MAX_BUFFER", "nat", "redis/mod.rs per-connection buffer cap", SRV, lambda: num(const(code(RMOD), "MAX_BUFFER_SIZE"))),
+    ("RESP_READ_CHUNK", "nat", "redis/mod.rs read size", SRV, lambda: num(need(code(RMOD), r"vec!\[0;\s*(\d+)\]", "read chunk").group(1))),
+    ("METRICS_MAX_KEY_LENGTH", "nat", "metrics.rs", SRV, lambda: num(const(code(MET), "MAX_KEY_LENGTH"))),
+    ("METRICS_MAX_DENIED_KEYS_LIMIT", "nat", "metrics.rs", SRV, lambda: num(const(code(MET), "MAX_DENIED_KEYS_LIMIT"))),
+    ("METRICS_GROWTH_FACTOR", "nat", "metrics.rs `len > max_size * 3`", None,
+     lambda: num(need(code(MET), r"self\.counts\.len\(\)\s*>\s*self\.max_size\s*\*\s*(\d+)", "growth factor").group(1))),
+    ("METRICS_DEFAULT_MAX_DENIED", "nat", "metrics.rs MetricsBuilder::new", SRV,
+     lambda: num(need(code(MET), r"max_denied_keys:\s*(\d+),", "default").group(1))),
+    ("RESP_DEFAULT_QUANTITY", "nat", "redis/mod.rs quantity when the 6th argument is omitted", None, lambda: int(quantity_block().group(4))),
+    ("RESP_THROTTLE_FULL_ARITY", "nat", "redis/mod.rs args.len() with explicit quantity", None, lambda: int(quantity_block().group(1))),
+    ("RESP_THROTTLE_MIN_ARGS", "nat", "redis/mod.rs arity lower bound", None, arity(1)),
+    ("RESP_THROTTLE_MAX_ARGS", "nat", "redis/mod.rs arity upper bound", None, arity(2)),
+    ("HTTP_DEFAULT_QUANTITY", "nat", "http.rs quantity.unwrap_or", None,
+     lambda: num(norm_expr(need(code(HTTP), r"quantity\s*:\s*(?:req\.)?quantity\.unwrap_or\(\s*(\w+)\s*\)", "HTTP default quantity").group(1), code(HTTP)))),
+    ("MAIN_CREATE_LIMITER_CALLS", "nat", "main.rs: number of calls of store::create_rate_limiter", None, count(MAINRS, r"create_rate_limiter\s*\(")),
+    ("MAIN_TRANSPORT_STARTS", "nat", "main.rs: number of transport.start(..) calls", None, count(MAINRS, r"transport\.start\(\s*(\w+)\s*\)")),
+    ("MAIN_HANDLES_CLONED_FROM_LIMITER", "nat", "main.rs: transport handles that are `limiter.clone()`", None, handles_cloned),
+    ("MAIN_METRICS_BUILDS", "nat", "main.rs: number of Metrics instances built", None, count(MAINRS, r"Metrics::builder\(\)")),
+    ("STORE_SPAWN_CALLS", "nat", "store.rs: actor spawns (one per store kind branch)", None, count(STORERS, r"RateLimiterActor::spawn_\w+\(")),
+    ("RECORD_REQUEST_INCS", "strs", "counters bumped (one `fetch_add(1)` each) by `Metrics::record_request` (both outcomes listed)", None, incs("record_request")),
+    ("RECORD_ERROR_INCS", "strs", "counters bumped by `Metrics::record_error` (all transports listed)", None, incs("record_error")),
+    ("PROTO_REQUEST", "proto", "(type, name, number) of throttlecrab.proto ThrottleRequest", None, proto_fields("ThrottleRequest")),
+    ("PROTO_RESPONSE", "proto", "(type, name, number) of throttlecrab.proto ThrottleResponse", None, proto_fields("ThrottleResponse")),
+    ("TYPES_RESPONSE_MAP", "pairs", "types.rs `From<(bool, RateLimitResult)> for ThrottleResponse`: (wire field, source expression)", None, types_map),
+    ("GRPC_RESPONSE_MAP", "pairs", "grpc.rs response literal: (proto field, source expression)", None,
+     struct_literal(GRPC, r"let response = ThrottleResponse \{(.*?)\};", "grpc response literal")),
+    ("GRPC_REQUEST_MAP", "pairs", "grpc.rs ActorRequest literal: (request field, source expression)", None,
+     struct_literal(GRPC, r"let actor_request = ActorRequest \{(.*?)\};", "grpc request literal")),
+    ("HTTP_REQUEST_MAP", "pairs", "http.rs InternalRequest literal: (request field, source expression)", None,
+     struct_literal(HTTP, r"let internal_req = InternalRequest \{(.*?)\};", "http request literal")),
+    ("HTTP_METRIC_CALLS", "pairs", "http.rs handle_throttle: (arm of the limiter result, metrics call)", None, metric_calls(HTTP)),
+    ("GRPC_METRIC_CALLS", "pairs", "grpc.rs throttle: (arm of the limiter result, metrics call)", None, metric_calls(GRPC)),
+    ("RESP_METRIC_CALLS", "strs", "redis/mod.rs: every metrics call of the RESP command handler, in source order", None, resp_metric_calls),
+    ("RESP_REPLY_FIELDS", "strs", "redis/mod.rs: the response fields in the order of the 5-integer reply array", None, resp_reply),
+    ("RESP_ARG_INDEX", "idx", "redis/mod.rs: which command-array index feeds which request field", None, resp_args),
+]
+
+def render(name, kind, doc, v):
+    if kind == "nat":
+        return [f"/-- {doc} -/", f"def {name} : Nat := {v}"]
+    if kind == "strs":
+        return [f"/-- {doc} -/", f"def {name} : List String := [" + ", ".join(f'"{c}"' for c in v) + "]"]
+    if kind == "pairs":
+        return [f"/-- {doc} -/", f"def {name} : List (String × String) := [" + ", ".join(f'("{a}", "{b}")' for a, b in v) + "]"]
+    if kind == "proto":
+        return [f"/-- {doc} -/", f"def {name} : List (String × String × Nat) := [" + ", ".join(f'("{t}", "{n}", {k})' for t, n, k in v) + "]"]
+    if kind == "idx":
+        return [f"/-- {doc} -/", f"def {name} : List (String × Nat) := [" + ", ".join(f'("{a}", {b})' for a, b in v) + "]"]
+    raise ValueError(kind)
+
+def main():
+    write_baseline = "--write-baseline" in sys.argv
+    baseline = {}
+    if os.path.exists(BASELINE):
+        baseline = json.load(open(BASELINE))
+    status = dict(repo=REPO, located=[], located_by_value={}, not_located={})
+    values = {}
+    consts_cache = {}
+    for name, kind, doc, crate, fn in ITEMS:
+        try:
+            v = fn()
+            status["located"].append(name)
+        except NotLocated as e:
+            if write_baseline:
+                raise
+            if name not in baseline:
+                raise
+            v = baseline[name]
+            v = [tuple(x) if isinstance(x, list) else x for x in v] if isinstance(v, list) else v
+            found = None
+            if kind == "nat" and crate:
+                if crate not in consts_cache:
+                    consts_cache[crate] = crate_consts(crate)
+                found = consts_cache[crate].get(v)
+            if found:
+                status["located_by_value"][name] = f"{e}; a constant with the expected value {v} exists: {', '.join(sorted(set(found))[:4])}"
+            else:
+                status["not_located"][name] = str(e)
+        values[name] = v
     lines = ["/- GENERATED by verif/translate/translate.py from /repo's sources on every run. Do not edit. -/",
              "namespace TcVerif.Gen", ""]
-    for n, v, c in items:
-        lines.append(f"/-- {c} -/")
-        lines.append(f"def {n} : Nat := {v}")
-    lines.append("")
-    lines.append("/-- counters bumped (one `fetch_add(1)` each) by `Metrics::record_request` (both outcomes listed) -/")
-    lines.append("def RECORD_REQUEST_INCS : List String := [" + ", ".join(f'"{c}"' for c in tbl["record_request"]) + "]")
-    lines.append("/-- counters bumped by `Metrics::record_error` (all transports listed) -/")
-    lines.append("def RECORD_ERROR_INCS : List String := [" + ", ".join(f'"{c}"' for c in tbl["record_error"]) + "]")
-    lines.append("/-- (type, name, number) of throttlecrab.proto ThrottleRequest -/")
-    lines.append("def PROTO_REQUEST : List (String × String × Nat) := [" + ", ".join(f'("{t}", "{n}", {k})' for t, n, k in preq) + "]")
-    lines.append("/-- (type, name, number) of throttlecrab.proto ThrottleResponse -/")
-    lines.append("def PROTO_RESPONSE : List (String × String × Nat) := [" + ", ".join(f'("{t}", "{n}", {k})' for t, n, k in presp) + "]")
-    lines += pairs("TYPES_RESPONSE_MAP", "types.rs `From<(bool, RateLimitResult)> for ThrottleResponse`: (wire field, source expression)", types_map)
-    lines += pairs("GRPC_RESPONSE_MAP", "grpc.rs response literal: (proto field, source expression)", grpc_resp)
-    lines += pairs("GRPC_REQUEST_MAP", "grpc.rs ActorRequest literal: (request field, source expression)", grpc_req)
-    lines += pairs("HTTP_REQUEST_MAP", "http.rs InternalRequest literal: (request field, source expression)", http_req)
-    lines += pairs("HTTP_METRIC_CALLS", "http.rs handle_throttle: (arm of the limiter result, metrics call)", http_calls)
-    lines += pairs("GRPC_METRIC_CALLS", "grpc.rs throttle: (arm of the limiter result, metrics call)", grpc_calls)
-    lines.append("/-- redis/mod.rs: every metrics call of the RESP command handler, in source order -/")
-    lines.append("def RESP_METRIC_CALLS : List String := [" + ", ".join('"' + c.replace('"', "'") + '"' for c in resp_calls) + "]")
-    lines.append("/-- redis/mod.rs: the response fields in the order of the 5-integer reply array -/")
-    lines.append("def RESP_REPLY_FIELDS : List String := [" + ", ".join(f'"{x}"' for x in resp_reply) + "]")
-    lines.append("/-- redis/mod.rs: which command-array index feeds which request field -/")
-    lines.append("def RESP_ARG_INDEX : List (String × Nat) := [" + ", ".join(f'("{a}", {b})' for a, b in rargs) + "]")
+    for name, kind, doc, crate, fn in ITEMS:
+        lines += render(name, kind, doc, values[name])
     lines += ["", "end TcVerif.Gen", ""]
     text = "\n".join(lines)
+    if write_baseline:
+        json.dump(values, open(BASELINE, "w"), indent=1, ensure_ascii=False)
+        print("wrote", BASELINE)
     os.makedirs(os.path.dirname(OUT), exist_ok=True)
     old = open(OUT).read() if os.path.exists(OUT) else None
     if old != text:
         with open(OUT, "w") as f:
             f.write(text)
         print("regenerated", OUT)
+    os.makedirs(os.path.dirname(STATUS), exist_ok=True)
+    json.dump(status, open(STATUS, "w"), indent=1)
+    for k, v in status["located_by_value"].items():
+        print(f"translate: NOTE {k}: {v}")
+    for k, v in status["not_located"].items():
+        print(f"translate: NOTE {k} not located ({v}); last known content emitted, tie rests on the correspondence legs")
 
 if __name__ == "__main__":
     try:
